@@ -73,5 +73,31 @@ CHECKS['C01'] = {
     'technique': 'path-sensitive symbolic delta (ledger) analysis + divmod distribution rule + bound inference',
 }
 
+CHECKS['C02'] = {
+    'level': 'Eligibility dataflow: who is appended to a pot (live AND paid >= level), winners drawn from exactly pot.player_indices by equality with the '
+             'maximum over exactly that set, hand types of a split data-dependent on the pot\'s own contenders, lone-survivor arm pays the one live '
+             'player, dead players hold no hand on any path, showdown hands made from the right cards, writer/reader agreement and FIFO order of the '
+             'sub-pot records.',
+    'note': 'Decides the structural necessary conditions of correct awarding for every pot/board/hand-type at once. Does NOT decide hand strength '
+            '(C04/C05), the amounts of the layers (C01), or pots whose every eligible player mucked (known finding under C01).',
+    'technique': 'control/data-dependence of eligibility and winner selection on enumerated paths vs spec terms',
+}
+CHECKS['C06'] = {
+    'level': 'Move-semantics / ownership analysis of the six card places: on every path of every mover each add is covered by a preceding '
+             '_consume_cards of the same cards or a paired removal, each removal by an add or a preceding _produce_cards; replenish arm, reserve '
+             'accessors, dealable-card rule, destinations of fold/kill/muck/burn/discard, and exclusive ownership of the containers.',
+    'note': 'Decides no-duplication / no-loss for engine-moved cards as pairing obligations on all paths. Does NOT decide duplicates introduced by '
+            'explicitly passed cards (the engine only warns, by design) nor concrete deck-size arithmetic.',
+    'technique': 'linear (move) typestate of card containers over enumerated paths',
+}
+CHECKS['C15'] = {
+    'level': 'Record fidelity: for every operation path the record fields are compared with the terms actually applied (player index = index written, '
+             'amount = stack delta / new bet, cards = cards consumed), parameters all recorded, log append-only via _update; frozen records; every '
+             'mutable State field per-instance, no class/global writes, no custom copy protocol; nondeterminism limited to the two shuffles; no set iteration.',
+    'note': 'Decides the necessary conditions of replayability, determinism and copy independence. Does NOT decide equality of replayed or copied '
+            'runs (a relation between runs).',
+    'technique': 'path-sensitive record-vs-effect agreement + per-instance state and nondeterminism lints',
+}
+
 ALL = [f'C{i:02d}' for i in range(1, 21)]
 NOT_APPLICABLE = {p: PENDING for p in ALL if p not in CHECKS}
